@@ -39,3 +39,61 @@ macro_rules! parse_pk {
 parse_pk!(c06_parse_hss_pk_n16, Havoc16);
 parse_pk!(c06_parse_hss_pk_n24, Havoc24);
 parse_pk!(c06_parse_hss_pk_n32, Havoc32);
+
+// ---- level-capacity boundary, decided under a 2-level build (HBS_LMS_MAX_ALLOWED_HSS_LEVELS=2) where the
+// container of signed public keys has capacity 1: two parseable signed keys fit a 1.3 KB buffer -------
+#[cfg(verif_levels = "2")]
+mod level_capacity {
+    use super::*;
+    const N: usize = 16;
+    const OTS: usize = 4 + N + N * 18;
+    const LMS_SIG: usize = 4 + OTS + 4 + N * 5;
+    const SPK: usize = LMS_SIG + 24 + N;
+
+    fn shape(buf: &mut [u8], off: usize) {
+        // LM-OTS type W8, LMS type H5 at the offsets of an LMS signature starting at `off`
+        buf[off + 4..off + 8].copy_from_slice(&4u32.to_be_bytes());
+        buf[off + 4 + OTS..off + 8 + OTS].copy_from_slice(&5u32.to_be_bytes());
+    }
+    fn pk_shape(buf: &mut [u8], off: usize) {
+        buf[off..off + 4].copy_from_slice(&5u32.to_be_bytes());
+        buf[off + 4..off + 8].copy_from_slice(&4u32.to_be_bytes());
+    }
+
+    // every level count with as many well-formed signed public keys as the count announces (0..=3):
+    // no panic, and a count beyond what a 2-level key can produce is rejected
+    fn level_count(level: u32) {
+        const CAP: usize = 4 + 3 * SPK + LMS_SIG;
+        let mut buf: [u8; CAP] = kani::any();
+        buf[..4].copy_from_slice(&level.to_be_bytes());
+        let mut off = 4;
+        let mut k = 0;
+        while k < level as usize && k < 3 {
+            shape(&mut buf, off);
+            pk_shape(&mut buf, off + LMS_SIG);
+            off += SPK;
+            k += 1;
+        }
+        shape(&mut buf, off);
+        let len = off + LMS_SIG;
+        let r = InMemoryHssSignature::<Havoc16>::new(&buf[..len]);
+        if level >= 2 {
+            assert!(r.is_none(), "more signed public keys than the build supports: rejected, not a crash");
+        } else {
+            // C01: everything a key within the configured limits can produce must parse
+            let q_ok = {
+                let mut ok = true;
+                let mut o = 4;
+                let mut k = 0;
+                while k <= level as usize { let q = u32::from_be_bytes([buf[o], buf[o + 1], buf[o + 2], buf[o + 3]]); if q >= 32 { ok = false; } o += SPK; k += 1; }
+                ok
+            };
+            assert!(r.is_some() == q_ok, "a well-formed signature with the maximum level count parses");
+        }
+        kani::cover!(true, "reached");
+    }
+    harness! { fn c06_level_count_0_of_2() unwind 8 { level_count(0) }}
+    harness! { fn c06_level_count_1_of_2() unwind 8 { level_count(1) }}
+    harness! { fn c06_level_count_2_of_2() unwind 8 { level_count(2) }}
+    harness! { fn c06_level_count_3_of_2() unwind 8 { level_count(3) }}
+}
